@@ -7,6 +7,7 @@ import json
 import os
 import posixpath
 import re
+import unicodedata
 from collections.abc import Callable, Iterable, Iterator, MutableMapping, Sequence
 from contextlib import contextmanager, suppress
 from datetime import date, datetime
@@ -2047,7 +2048,15 @@ def default_slugify(title: str) -> str:
     - https://github.com/jch/html-pipeline/blob/master/lib/html/pipeline/toc_filter.rb
     - https://gist.github.com/asabaylus/3071099
     """
-    return _SLUGIFY_CLEAN_REGEX.sub("", title.lower().replace(" ", "-"))
+
+    def _clean(match: re.Match[str]) -> str:
+        # GitHub keeps Ruby's \p{Word}, which (unlike Python's \w) includes combining
+        # marks, e.g. Indic/Thai vowel signs and tone marks, and the zero-width joiners
+        char = match.group()
+        keep = unicodedata.category(char).startswith("M") or char in "\u200c\u200d"
+        return char if keep else ""
+
+    return _SLUGIFY_CLEAN_REGEX.sub(_clean, title.lower().replace(" ", "-"))
 
 
 def compute_unique_slug(
